@@ -29,7 +29,7 @@ func init() {
 		NotDecided: "well-typedness of the whole generated file for all descriptors (identifier mangling collisions between services/methods, zero-method services, protolib options): that quantifies over the generator's textual output; running the generator and type-checking what it prints is another family of technique.",
 		Rules: []Rule{
 			{ID: "C17.R1", Doc: "emitted literals never name an imported package directly (except the first-registered runtime import)", Run: c17r1},
-			{ID: "C17.R2", Doc: "RPCGoString is the only producer of RPC names and is what client stubs and the description emit", Run: c17r2},
+			{ID: "C17.R2", Doc: "every RPC name the generator emits (Invoke, NewStream, description) evaluates symbolically to the quoted \"/\" + service full name + \"/\" + proto method name", Run: c17r2},
 			{ID: "C17.R4", Doc: "the four generated method shapes, pushed through the mux's extracted switch, agree with the receiver closure and HandleRPC", Run: c17r4},
 			{ID: "C17.R5", Doc: "identifier helpers that join two descriptor names with '_' escape '_' in both parts (injective mangling)", Run: c17r5},
 			{ID: "C17.R6", Doc: "plugin options (protolib, json) are read only inside the Run callback, through the variables the flags are bound to: no copy is taken before the parameters are parsed", Run: c17r6},
@@ -140,7 +140,28 @@ func c17r1(c *an.Ctx) {
 	// `drpc.` literals are safe only if storj.io/drpc is the first import registered on every path:
 	// generateFile calls generateEncoding before any generateService, and every branch of generateEncoding's switch
 	// starts with a d.Ident("storj.io/drpc", ...) before any descriptor-derived identifier.
-	gf := genFunc(pk, "generateFile")
+	// the function that drives the generation of one file is found by what it does (it calls generateEncoding),
+	// not by its name or by being a function rather than a method
+	var gf *ast.FuncDecl
+	for _, f := range pk.Syntax {
+		for _, d := range f.Decls {
+			fd, ok := d.(*ast.FuncDecl)
+			if !ok || fd.Body == nil {
+				continue
+			}
+			ast.Inspect(fd.Body, func(n ast.Node) bool {
+				if call, ok := n.(*ast.CallExpr); ok {
+					if sel, ok := call.Fun.(*ast.SelectorExpr); ok && sel.Sel.Name == "generateEncoding" {
+						gf = fd
+					}
+				}
+				return true
+			})
+		}
+	}
+	if gf == nil {
+		panic(&an.Unresolved{What: "generator function calling generateEncoding"})
+	}
 	encPos, svcPos := token.NoPos, token.NoPos
 	ast.Inspect(gf.Body, func(n ast.Node) bool {
 		if call, ok := n.(*ast.CallExpr); ok {
@@ -192,88 +213,368 @@ func keysOf(m map[string]string) []string {
 	return out
 }
 
-func c17r2(c *an.Ctx) {
-	pk := genPkg(c)
-	// (a) RPCGoString's body
-	rg := genFunc(pk, "RPCGoString")
-	okFmt, okSvc, okMeth, okQuote := false, false, false, false
-	ast.Inspect(rg.Body, func(n ast.Node) bool {
-		call, ok := n.(*ast.CallExpr)
-		if !ok {
-			return true
+// ---------------------------------------------------------------------------
+// R2: symbolic evaluation of the strings the generator builds for RPC names
+
+// genStr evaluates a string-valued generator expression to a normal form: literal text verbatim, descriptor
+// reads as ⟨Type.path⟩ atoms (the variable they are read through does not matter, only the descriptor type),
+// strconv.Quote as Quote(...). Locals with a single assignment, parameters bound at a call, and same-package
+// helpers whose body is a single return are looked through. ok=false: something it does not understand.
+type genStr struct {
+	pk    *packages.Package
+	depth int
+}
+
+func (g *genStr) eval(e ast.Expr, env map[types.Object]ast.Expr, fn ast.Node) (string, bool) {
+	if g.depth > 40 {
+		return "", false
+	}
+	g.depth++
+	defer func() { g.depth-- }()
+	info := g.pk.TypesInfo
+	switch x := e.(type) {
+	case *ast.ParenExpr:
+		return g.eval(x.X, env, fn)
+	case *ast.BasicLit:
+		if s, ok := strLit(g.pk, x); ok {
+			return s, true
 		}
-		if sel, ok := call.Fun.(*ast.SelectorExpr); ok {
-			switch sel.Sel.Name {
-			case "Quote":
-				okQuote = true
-			case "Sprintf":
-				if s, ok := strLit(pk, call.Args[0]); ok && s == "/%s/%s" && len(call.Args) == 3 {
-					okFmt = true
-					a1, a2 := exprString(call.Args[1]), exprString(call.Args[2])
-					okSvc = a1 == "method.Parent.Desc.FullName()"
-					okMeth = a2 == "method.Desc.Name()"
+	case *ast.BinaryExpr:
+		if x.Op == token.ADD {
+			a, ok1 := g.eval(x.X, env, fn)
+			b, ok2 := g.eval(x.Y, env, fn)
+			return a + b, ok1 && ok2
+		}
+	case *ast.Ident:
+		obj := info.Uses[x]
+		if obj == nil {
+			obj = info.Defs[x]
+		}
+		if bound, ok := env[obj]; ok && bound != nil {
+			return g.eval(bound, nil, fn) // arguments are evaluated in the caller, whose own bindings were applied when binding
+		}
+		if s, ok := strLit(g.pk, x); ok {
+			return s, true // a string constant
+		}
+		if v, ok := obj.(*types.Var); ok {
+			if a := g.atomRoot(v.Type()); a != "" {
+				return "⟨" + a + "⟩", true
+			}
+			if rhs := g.singleAssignment(v, fn); rhs != nil {
+				return g.eval(rhs, env, fn)
+			}
+		}
+	case *ast.SelectorExpr:
+		if a, ok := g.atom(x, env, fn); ok {
+			return a, true
+		}
+	case *ast.CallExpr:
+		if tv, ok := info.Types[x.Fun]; ok && tv.IsType() && len(x.Args) == 1 {
+			return g.eval(x.Args[0], env, fn) // string(x)
+		}
+		if sel, ok := x.Fun.(*ast.SelectorExpr); ok {
+			if f, ok := info.Uses[sel.Sel].(*types.Func); ok && f.Pkg() != nil {
+				switch f.FullName() {
+				case "fmt.Sprintf":
+					if format, ok := strLit(g.pk, x.Args[0]); ok {
+						return g.sprintf(format, x.Args[1:], env, fn)
+					}
+					return "", false
+				case "strconv.Quote":
+					in, ok := g.eval(x.Args[0], env, fn)
+					return "Quote(" + in + ")", ok
 				}
+				if f.Pkg() == g.pk.Types {
+					return g.inlineHelper(f, x, env, fn)
+				}
+			}
+			if a, ok := g.atom(x, env, fn); ok {
+				return a, true
+			}
+		}
+		if id, ok := x.Fun.(*ast.Ident); ok {
+			if f, ok := info.Uses[id].(*types.Func); ok && f.Pkg() == g.pk.Types {
+				return g.inlineHelper(f, x, env, fn)
+			}
+		}
+	}
+	return "", false
+}
+
+func (g *genStr) sprintf(format string, args []ast.Expr, env map[types.Object]ast.Expr, fn ast.Node) (string, bool) {
+	out := ""
+	ai := 0
+	for i := 0; i < len(format); i++ {
+		if format[i] != '%' {
+			out += string(format[i])
+			continue
+		}
+		if i+1 >= len(format) {
+			return "", false
+		}
+		i++
+		switch format[i] {
+		case '%':
+			out += "%"
+		case 's', 'v':
+			if ai >= len(args) {
+				return "", false
+			}
+			s, ok := g.eval(args[ai], env, fn)
+			if !ok {
+				return "", false
+			}
+			out += s
+			ai++
+		case 'q':
+			if ai >= len(args) {
+				return "", false
+			}
+			s, ok := g.eval(args[ai], env, fn)
+			if !ok {
+				return "", false
+			}
+			out += "Quote(" + s + ")"
+			ai++
+		default:
+			return "", false
+		}
+	}
+	return out, ai == len(args)
+}
+
+// atomRoot names a descriptor type: "Method", "Service", ...
+func (g *genStr) atomRoot(t types.Type) string {
+	if p, ok := t.(*types.Pointer); ok {
+		t = p.Elem()
+	}
+	if nt, ok := t.(*types.Named); ok && nt.Obj().Pkg() != nil {
+		path := nt.Obj().Pkg().Path()
+		if strings.HasSuffix(path, "protogen") || strings.HasSuffix(path, "protoreflect") {
+			return nt.Obj().Name()
+		}
+	}
+	return ""
+}
+
+// atom renders a read of a descriptor (x.Desc.FullName(), method.GoName, ...) by the descriptor type it starts
+// from; a step that yields another protogen descriptor (method.Parent) restarts the path at that type.
+func (g *genStr) atom(e ast.Expr, env map[types.Object]ast.Expr, fn ast.Node) (string, bool) {
+	info := g.pk.TypesInfo
+	var steps []string
+	cur := e
+	for {
+		if t := info.TypeOf(cur); t != nil {
+			if r := g.atomRoot(t); r != "" && strings.HasSuffix(pkgPathOf(t), "protogen") && len(steps) > 0 {
+				rev := make([]string, len(steps))
+				for i := range steps {
+					rev[i] = steps[len(steps)-1-i]
+				}
+				return "⟨" + r + "." + strings.Join(rev, ".") + "⟩", true
+			}
+		}
+		switch x := cur.(type) {
+		case *ast.CallExpr:
+			if len(x.Args) != 0 {
+				return "", false
+			}
+			sel, ok := x.Fun.(*ast.SelectorExpr)
+			if !ok {
+				return "", false
+			}
+			steps = append(steps, sel.Sel.Name+"()")
+			cur = sel.X
+		case *ast.SelectorExpr:
+			steps = append(steps, x.Sel.Name)
+			cur = x.X
+		case *ast.ParenExpr:
+			cur = x.X
+		case *ast.Ident:
+			obj := info.Uses[x]
+			if bound, ok := env[obj]; ok && bound != nil {
+				cur = bound
+				env = nil
+				continue
+			}
+			if v, ok := obj.(*types.Var); ok {
+				if rhs := g.singleAssignment(v, fn); rhs != nil && g.atomRoot(v.Type()) != "" {
+					cur = rhs
+					continue
+				}
+			}
+			return "", false
+		default:
+			return "", false
+		}
+	}
+}
+
+func pkgPathOf(t types.Type) string {
+	if p, ok := t.(*types.Pointer); ok {
+		t = p.Elem()
+	}
+	if nt, ok := t.(*types.Named); ok && nt.Obj().Pkg() != nil {
+		return nt.Obj().Pkg().Path()
+	}
+	return ""
+}
+
+// singleAssignment returns the only value ever assigned to the local v in fn (declaration included), or nil.
+func (g *genStr) singleAssignment(v *types.Var, fn ast.Node) ast.Expr {
+	if fn == nil {
+		return nil
+	}
+	info := g.pk.TypesInfo
+	var rhs ast.Expr
+	n := 0
+	is := func(e ast.Expr) bool {
+		id, ok := e.(*ast.Ident)
+		return ok && (info.Defs[id] == types.Object(v) || info.Uses[id] == types.Object(v))
+	}
+	ast.Inspect(fn, func(x ast.Node) bool {
+		switch y := x.(type) {
+		case *ast.AssignStmt:
+			for i, l := range y.Lhs {
+				if is(l) {
+					n++
+					if len(y.Lhs) == len(y.Rhs) {
+						rhs = y.Rhs[i]
+					} else {
+						n += 10
+					}
+				}
+			}
+		case *ast.ValueSpec:
+			for i, nm := range y.Names {
+				if info.Defs[nm] == types.Object(v) && len(y.Values) == len(y.Names) {
+					n++
+					rhs = y.Values[i]
+				}
+			}
+		case *ast.RangeStmt:
+			if (y.Key != nil && is(y.Key)) || (y.Value != nil && is(y.Value)) {
+				n += 10
+			}
+		case *ast.IncDecStmt:
+			if is(y.X) {
+				n += 10
 			}
 		}
 		return true
 	})
-	c.Check(okFmt && okQuote, "RPCGoString | quoted \"/%s/%s\"", c.P.Pos(rg.Pos()), "", "the RPC name is not '/' + service + '/' + method")
-	c.Check(okSvc, "RPCGoString | service part is the descriptor's full name", c.P.Pos(rg.Pos()), "", "the service part of the RPC name is not method.Parent.Desc.FullName()")
-	c.Check(okMeth, "RPCGoString | method part is the descriptor's method name", c.P.Pos(rg.Pos()), "", "the method part of the RPC name is not method.Desc.Name() (e.g. the Go-cased name differs for get_item)")
-	// (b) consumers: the argument following a literal ending in "Invoke(ctx, " / "NewStream(ctx, " and the first argument after "return " in the description switch
+	if n != 1 {
+		return nil
+	}
+	return rhs
+}
+
+// inlineHelper evaluates a call of a same-package function whose body is `return expr` (possibly after
+// declarations of single-assignment locals) with the parameters bound to the arguments.
+func (g *genStr) inlineHelper(f *types.Func, call *ast.CallExpr, env map[types.Object]ast.Expr, fn ast.Node) (string, bool) {
+	var fd *ast.FuncDecl
+	for _, file := range g.pk.Syntax {
+		for _, d := range file.Decls {
+			if x, ok := d.(*ast.FuncDecl); ok && g.pk.TypesInfo.Defs[x.Name] == types.Object(f) {
+				fd = x
+			}
+		}
+	}
+	if fd == nil || fd.Body == nil || len(fd.Body.List) == 0 {
+		return "", false
+	}
+	ret, ok := fd.Body.List[len(fd.Body.List)-1].(*ast.ReturnStmt)
+	if !ok || len(ret.Results) != 1 {
+		return "", false
+	}
+	nenv := map[types.Object]ast.Expr{}
+	ai := 0
+	if fd.Type.Params != nil {
+		for _, p := range fd.Type.Params.List {
+			for _, nm := range p.Names {
+				if ai < len(call.Args) {
+					// bind to the caller's expression with the caller's bindings substituted lazily: keep a closure via wrapper
+					nenv[g.pk.TypesInfo.Defs[nm]] = g.substitute(call.Args[ai], env)
+				}
+				ai++
+			}
+		}
+	}
+	return g.eval(ret.Results[0], nenv, fd)
+}
+
+// substitute resolves identifiers of e that are bound in env (one level), so that an argument can be
+// evaluated later without the caller's environment.
+func (g *genStr) substitute(e ast.Expr, env map[types.Object]ast.Expr) ast.Expr {
+	if len(env) == 0 {
+		return e
+	}
+	switch x := e.(type) {
+	case *ast.Ident:
+		if b, ok := env[g.pk.TypesInfo.Uses[x]]; ok && b != nil {
+			return b
+		}
+	case *ast.SelectorExpr:
+		if id, ok := x.X.(*ast.Ident); ok {
+			if b, ok := env[g.pk.TypesInfo.Uses[id]]; ok && b != nil {
+				return &ast.SelectorExpr{X: b, Sel: x.Sel}
+			}
+		}
+	}
+	return e
+}
+
+const canonicalRPCName = "Quote(/⟨Service.Desc.FullName()⟩/⟨Method.Desc.Name()⟩)"
+
+func c17r2(c *an.Ctx) {
+	pk := genPkg(c)
+	// every place where the generator emits an RPC name -- after "Invoke(ctx, " / "NewStream(ctx, " in the client
+	// stubs and as the first value of the description's `return` -- emits the same function of the descriptors:
+	// the quoted "/" + service full name + "/" + method name (the proto name, not the Go-cased one).
 	nCons := 0
-	for _, fname := range []string{"generateClientMethod", "generateService"} {
-		fd := genFunc(pk, fname)
-		ast.Inspect(fd.Body, func(n ast.Node) bool {
-			call, ok := n.(*ast.CallExpr)
-			if !ok {
+	for _, f := range pk.Syntax {
+		for _, d := range f.Decls {
+			fd, ok := d.(*ast.FuncDecl)
+			if !ok || fd.Body == nil {
+				continue
+			}
+			ast.Inspect(fd.Body, func(n ast.Node) bool {
+				call, ok := n.(*ast.CallExpr)
+				if !ok {
+					return true
+				}
+				sel, ok := call.Fun.(*ast.SelectorExpr)
+				if !ok || sel.Sel.Name != "P" {
+					return true
+				}
+				for i, a := range call.Args {
+					s, isLit := strLit(pk, a)
+					if !isLit {
+						continue
+					}
+					isCons := strings.HasSuffix(s, "Invoke(ctx, ") || strings.HasSuffix(s, "NewStream(ctx, ")
+					if s == "return " && i == 0 && len(call.Args) > 2 {
+						// description case: return <name>, <encoding>{}, -- recognised by the encoding literal that follows
+						if s2, ok := strLit(pk, call.Args[2]); ok && strings.HasPrefix(s2, ", ") {
+							isCons = true
+						}
+					}
+					if !isCons || i+1 >= len(call.Args) {
+						continue
+					}
+					nCons++
+					ev := &genStr{pk: pk}
+					got, okEval := ev.eval(call.Args[i+1], nil, fd)
+					if !okEval {
+						got = "cannot evaluate " + exprString(call.Args[i+1])
+					}
+					c.Check(okEval && got == canonicalRPCName, fmt.Sprintf("%s | RPC name after %q is \"/\" + service full name + \"/\" + proto method name, quoted", fd.Name.Name, trimStr(s, 30)), c.P.Pos(call.Pos()), got,
+						"an RPC name is emitted as "+got+" instead of "+canonicalRPCName+": the client stub and the server description can disagree (the mux answers 'unknown rpc')")
+				}
 				return true
-			}
-			sel, ok := call.Fun.(*ast.SelectorExpr)
-			if !ok || sel.Sel.Name != "P" {
-				return true
-			}
-			for i, a := range call.Args {
-				s, isLit := strLit(pk, a)
-				if !isLit {
-					continue
-				}
-				isCons := strings.HasSuffix(s, "Invoke(ctx, ") || strings.HasSuffix(s, "NewStream(ctx, ")
-				if fname == "generateService" && s == "return " && i == 0 && len(call.Args) > 2 {
-					// description case: return <name>, <encoding>{},
-					isCons = true
-				}
-				if !isCons || i+1 >= len(call.Args) {
-					continue
-				}
-				nCons++
-				next := exprString(call.Args[i+1])
-				c.Check(next == "d.RPCGoString(method)", fmt.Sprintf("%s | RPC name after %q comes from RPCGoString", fname, trimStr(s, 30)), c.P.Pos(call.Pos()), "",
-					"an RPC name is emitted from "+next+" instead of d.RPCGoString(method): the client stub and the server description can disagree (the mux answers 'unknown rpc')")
-			}
-			return true
-		})
+			})
+		}
 	}
 	c.Check(nCons >= 3, "generator | RPC name consumers found (Invoke, NewStream, description)", "-", fmt.Sprint(nCons), fmt.Sprintf("only %d RPC name emission sites recognised", nCons))
-	// (c) no other producer of "/..." names
-	nOther := 0
-	for _, f := range pk.Syntax {
-		ast.Inspect(f, func(n ast.Node) bool {
-			bl, ok := n.(*ast.BasicLit)
-			if !ok || bl.Kind != token.STRING {
-				return true
-			}
-			s, _ := strconv.Unquote(bl.Value)
-			if (strings.HasPrefix(s, "/%") || strings.HasPrefix(s, "\"/")) && !(rg.Pos() <= bl.Pos() && bl.Pos() <= rg.End()) {
-				nOther++
-				c.Bad("generator | second producer of RPC paths", c.P.Pos(bl.Pos()), "a literal "+strconv.Quote(s)+" builds an RPC path outside RPCGoString")
-			}
-			return true
-		})
-	}
-	if nOther == 0 {
-		c.Ok("generator | RPCGoString is the only producer of RPC paths", "-", "")
-	}
 }
 
 func exprString(e ast.Expr) string {
@@ -542,11 +843,85 @@ func c17r4(c *an.Ctx) {
 			fmt.Sprintf("for the %s shape the generated receiver passes (%s) but the signature and the mux's dispatch require (%s): the type assertion fails at the first call", name(f), strings.Join(pieces, ","), strings.Join(want, ",")))
 		c.Check(returnsValue == (sh.results == 2), key+" | receiver returns the response iff the method has one", c.P.Pos(rcv.Pos()), "", "the receiver closure's return form does not match the method's results")
 	}
-	// HandleRPC: in1 = message unless data.in1 == streamType; in2 = stream always
-	hr := genFunc(mpk, "HandleRPC")
-	src := nodeString(hr)
-	c.Check(strings.Contains(src, "data.receiver(data.srv, stream.Context(), in, stream)"), "Mux.HandleRPC | receiver is called with (srv, ctx, in, stream)", c.P.Pos(hr.Pos()), "", "HandleRPC does not supply in2 = stream")
-	c.Check(strings.Contains(src, "data.in1 != streamType"), "Mux.HandleRPC | a request message is received iff in1 is not the stream type", c.P.Pos(hr.Pos()), "", "HandleRPC's choice between message and stream input no longer follows data.in1")
+	// HandleRPC: in1 = message unless data.in1 == streamType; in2 = stream always. Decided on the resolved program
+	// (not on the text), so that it holds whether the input is prepared in place or in a helper.
+	{
+		hfn := c.Fn("drpcmux", "(*Mux).HandleRPC")
+		a := A(c)
+		in1F := a.field("drpcmux", "rpcData", "in1")
+		var recvCall *ssa.Call
+		an.Instrs(hfn, func(in ssa.Instruction) {
+			call, isCall := in.(*ssa.Call)
+			if !isCall || call.Common().IsInvoke() || call.Common().StaticCallee() != nil {
+				return
+			}
+			if p := an.PathOf(call.Common().Value); p.Last() != nil && nameOf(p.Last()) == "receiver" {
+				recvCall = call
+			}
+		})
+		// the guard `data.in1 ==/!= streamType` in a guard list: +1 equal, -1 different, 0 not tested
+		in1Test := func(gs []an.Guard) int {
+			for _, g := range gs {
+				cmp, ok := an.CmpOf(g)
+				if !ok || (cmp.Op != token.EQL && cmp.Op != token.NEQ) {
+					continue
+				}
+				isIn1 := func(v ssa.Value) bool { return isLoadOfField(an.Resolve(v), in1F) || isLoadOfField(v, in1F) }
+				isST := func(v ssa.Value) bool {
+					u, ok := an.Resolve(v).(*ssa.UnOp)
+					if !ok || u.Op != token.MUL {
+						return false
+					}
+					gl, ok := u.X.(*ssa.Global)
+					return ok && gl.Name() == "streamType"
+				}
+				if (isIn1(cmp.X) && isST(cmp.Y)) || (isIn1(cmp.Y) && isST(cmp.X)) {
+					if cmp.Op == token.EQL {
+						return 1
+					}
+					return -1
+				}
+			}
+			return 0
+		}
+		isStreamParam := func(v ssa.Value) bool {
+			v = an.Unwrap(an.Resolve(v))
+			if mi, ok := v.(*ssa.MakeInterface); ok {
+				v = an.Unwrap(an.Resolve(mi.X))
+			}
+			if ci, ok := v.(*ssa.ChangeInterface); ok {
+				v = an.Unwrap(an.Resolve(ci.X))
+			}
+			return len(hfn.Params) >= 2 && v == ssa.Value(hfn.Params[1])
+		}
+		okArgs, okIn := false, true
+		nSrc := 0
+		if recvCall != nil && len(recvCall.Common().Args) == 4 {
+			okArgs = isStreamParam(recvCall.Common().Args[3])
+			for _, src := range an.SourcesWithGuards(recvCall.Common().Args[2], recvCall.Block()) {
+				nSrc++
+				t := in1Test(src.Guards)
+				if isStreamParam(src.Val) {
+					if t != 1 {
+						okIn = false // the stream is passed as in1 although in1 is not (known to be) the stream type
+					}
+				} else if t != -1 {
+					okIn = false // a message is passed as in1 although in1 may be the stream type
+				}
+			}
+		}
+		c.Check(recvCall != nil && okArgs, "Mux.HandleRPC | receiver is called with (srv, ctx, in, stream)", c.P.Pos(hfn.Pos()), "", "HandleRPC does not supply in2 = stream")
+		// the request message is received exactly when in1 is not the stream type
+		okRecv := false
+		an.Instrs(hfn, func(in ssa.Instruction) {
+			call, isCall := in.(*ssa.Call)
+			if !isCall || !call.Common().IsInvoke() || call.Common().Method.Name() != "MsgRecv" {
+				return
+			}
+			okRecv = in1Test(an.GuardsOf(call.Block())) == -1
+		})
+		c.Check(okIn && nSrc >= 2 && okRecv, "Mux.HandleRPC | a request message is received iff in1 is not the stream type", c.P.Pos(hfn.Pos()), "", "HandleRPC's choice between message and stream input no longer follows data.in1")
+	}
 	// (4) client side follows the same flags
 	cm := genFunc(pk, "generateClientMethod")
 	cs := genFunc(pk, "generateClientSignature")
